@@ -1,9 +1,91 @@
-(** C22 — property theorems only. *)
-From Coq Require Import List NArith Arith Bool.
-Import ListNotations.
-Require Import Aurora.Consts Aurora.C22.Model Aurora.C22.Proofs.
+(** C22 — property theorems only.
 
+    [recalc_depth unr nn quick bins radius] is the transcription of
+    [recalcDepth(peers, radius, filter)]: [bins] the connected peers by bin (any
+    element type, slice order), [unr a = true] when the filter drops [a] (not
+    reachable), [nn = nnLowWatermark] (3 in the code), [quick =
+    quickSaturationPeers] (a package variable [kademlia.New] rewrites; the
+    theorems hold for every value).  [rc unr l] = number of reachable peers of [l]. *)
+From Coq Require Import List NArith ZArith Arith Bool Permutation.
+Import ListNotations.
+Require Import Aurora.Consts Aurora.C21.Model Aurora.C21.Abs Aurora.C22.Model Aurora.C22.Proofs.
+
+(** "never exceeds the radius" *)
+Theorem C22_le_radius : forall (A : Type) (unr : A -> bool) nn quick bins radius,
+  recalc_depth unr nn quick bins radius <= radius.
+Proof. exact @rd_le_radius. Qed.
+Print Assumptions C22_le_radius.
+
+(** "is zero when at most three peers are connected" (nn = 3) *)
 Theorem C22_zero_small : forall (A : Type) (unr : A -> bool) nn quick bins radius,
   length (concat bins) <= nn -> recalc_depth unr nn quick bins radius = 0.
-Proof. exact @depth_small. Qed.
+Proof. exact @rd_zero_small. Qed.
 Print Assumptions C22_zero_small.
+
+(** "when positive leaves at least three reachable peers at or beyond it" *)
+Theorem C22_three_reachable_beyond : forall (A : Type) (unr : A -> bool) nn quick bins radius,
+  0 < recalc_depth unr nn quick bins radius ->
+  nn <= rc unr (concat (skipn (recalc_depth unr nn quick bins radius) bins)).
+Proof. exact @rd_three_beyond. Qed.
+Print Assumptions C22_three_reachable_beyond.
+
+(** "never exceeds the shallowest empty bin" *)
+Theorem C22_le_shallowest_empty : forall (A : Type) (unr : A -> bool) nn quick bins radius i,
+  i < length bins -> nth i bins [] = [] -> recalc_depth unr nn quick bins radius <= i.
+Proof. exact @rd_le_empty. Qed.
+Print Assumptions C22_le_shallowest_empty.
+
+(** "every shallower bin holds at least the quick-saturation number of
+    reachable peers" — full for the repaired code (fix-depth-skips-bin) *)
+Theorem C22_shallower_saturated : forall (A : Type) (unr : A -> bool) nn quick bins radius,
+  length bins <= 256 ->
+  forall i, i < recalc_depth unr nn quick bins radius -> quick <= rc unr (nth i bins []).
+Proof. exact @rd_shallower_saturated. Qed.
+Print Assumptions C22_shallower_saturated.
+
+(** "depends only on the current set, not on the order of connections":
+    the slice order inside every bin is irrelevant *)
+Theorem C22_order_independent : forall (A : Type) (unr : A -> bool) nn quick bins bins' radius,
+  Forall2 (@Permutation A) bins bins' ->
+  recalc_depth unr nn quick bins radius = recalc_depth unr nn quick bins' radius.
+Proof. exact @rd_order_independent. Qed.
+Print Assumptions C22_order_independent.
+
+(** in every state a Kad reaches by Connected / Outbound / Disconnected /
+    Reachable / SetRadius events (repaired code: fix-depth-stale), the STORED
+    depth is the depth of the current peer set, radius and reachability, and
+    therefore has every clause above *)
+Theorem C22_stored_depth_is_recalc : forall pof nn quick maxBins maxpo es, maxBins <= 256 ->
+  let k := kad_run pof nn quick (kad_init maxBins maxpo) es in
+  depth k = depth_of nn quick (conn k) (radius k) (reach k) /\
+  depth k <= radius k /\
+  (length (concat (conn k)) <= nn -> depth k = 0) /\
+  (0 < depth k -> nn <= reachable_in (reach k) (concat (skipn (depth k) (conn k)))) /\
+  (forall i, i < maxBins -> nth i (conn k) [] = [] -> depth k <= i) /\
+  (forall i, i < depth k -> quick <= reachable_in (reach k) (nth i (conn k) [])).
+Proof. exact kad_clauses. Qed.
+Print Assumptions C22_stored_depth_is_recalc.
+
+(** configurations: the thresholds [New] derives from [Options.BinMaxPeers]
+    (over = BinMaxPeers, at least 5, rounded up to a multiple of 5;
+    saturation = 2*over/5; quick = over/5 >= 1) *)
+Theorem C22_thresholds : forall b prev, (1 <= snd prev)%Z ->
+  (1 <= snd (thresholds_new b prev))%Z /\
+  ((0 < b)%Z -> let over := fst (fst (thresholds_new b prev)) in
+     (Z.rem over 5 = 0 /\ Z.max 5 b <= over < Z.max 5 b + 5 /\
+      snd (thresholds_new b prev) = Z.quot over 5 /\
+      snd (fst (thresholds_new b prev)) = 2 * Z.quot over 5)%Z).
+Proof. exact thresholds_quick_pos. Qed.
+Print Assumptions C22_thresholds.
+
+(** non-vacuity: the former witness of F-depth-skips-bin (bins 0: 4 reachable,
+    1: 2 unreachable, 2: 4 reachable; quick = 4) now has depth 1; a saturated
+    prefix reaches a positive depth limited by the third-deepest reachable
+    peer; defaults give quick >= 1 *)
+Example C22_hyps_satisfiable :
+  let f := false in let t := true in
+  recalc_depth (fun u : bool => u) 3 4 [[f;f;f;f]; [t;t]; [f;f;f;f]] 31 = 1 /\
+  recalc_depth (fun u : bool => u) 3 1 [[f]; [f;t]; [f]; [f;f]; [f]; []] 31 = 3 /\
+  0 < recalc_depth (fun u : bool => u) 3 1 [[f]; [f;t]; [f]; [f;f]; [f]; []] 31 /\
+  thresholds_new 23 (20, 8, 4)%Z = (25, 10, 5)%Z /\ thresholds_new 0 (20, 8, 4)%Z = (20, 8, 4)%Z.
+Proof. vm_compute. repeat split; try reflexivity. repeat constructor. Qed.
